@@ -1,4 +1,5 @@
-From FV Require Import Common.ExtractTypes Pairing.PairingModel.
+From FV Require Import Common.ExtractTypes Pairing.PairingModel Pairing.PairingPtr.
 From Coq Require Extraction.
 From Coq Require Import ExtrOcamlBasic.
-Extraction "../build/extract/pairing_model.ml" types_witness step top empty layout helems.
+Extraction "../build/extract/pairing_model.ml" types_witness step top empty layout helems
+  p_init p_step p_run p_merge p_collapse upd set_child set_backlink set_sibling abs.
